@@ -50,11 +50,25 @@ RULE = ("Hypothesis draws small TT-tensors (d 2..4, mode sizes 1..4(5), ranks up
         "alike, an independent draw per core; typed cores hold exactly representable values.  `sample` and `sample_square` are audited by "
         "the full forced enumeration against the dense reference of the float64 copy and must return, for the same int seed / Generator "
         "kind and m in 1..40, the very rows the float64 copy gives; non-trivial = d >= 3, a typed core before the last one, rank >= 2.  "
-        "`grid` / `sample_tt` also get the shape as int32 / int16 / uint8 arrays.")
+        "`grid` / `sample_tt` also get the shape as int32 / int16 / uint8 arrays.  SCALE-FREE CONDITIONALS: (a) `long_chains`: d 12..40 (64), "
+        "modes 2..4, ranks 1..2 (product / two-component mixture / dense / peaked / sparse non-negative cores) normalised to total mass 1 "
+        "(also 0.5, 3, 7.25, 1e-3, 1e3; optionally times 2**+-20..100) so that prefix marginals decay to 1e-12 .. 1e-30 and below; 2..4 target "
+        "rows per case (drawn from the distribution, uniform, greedily most / least likely) are forced through `sample` (unsert 0 and "
+        "default / 1e-10 / 1e-6 / 1e-14) resp. `sample_square` (cores with a random sign per mode slice), and an ordinary call (m 1..5, real "
+        "Generator, recorded) is audited: EVERY probability vector handed to the generator, the late modes included, is compared with the "
+        "conditional distribution given the drawn prefix, computed from the cores in non-negative arithmetic; non-trivial = a conditional "
+        "behind a prefix of marginal <= 1e-12 was audited.  (b) `chains` multiplies the short `sample` tensors by 2**+-20..100 overall (one "
+        "core / spread): with unsert=0 the same generator state must give the rows of the unscaled tensor.  (c) every forced / recorded "
+        "`sample` audit (`sample_forced`, `chains`, `history`, `core_dtypes`) also asserts that the conditionals of the modes 1..d-1 multiply "
+        "to T[i]/M0[i_0] with a purely relative tolerance, whatever unsert and the total mass are.")
 TOLERANCES = ("sample: |prod p - T[i]/S| <= 4 d K eps rho T[i]/S (+ n_0 unsert/S for unsert > 0), K = 32(d+sum r+sum n), rho = max "
               "abs-majorant/value ratio over all prefix marginals (1 for non-negative cores, so zero entries are exact); "
               "sample_square: eta = K eps prod||G_k||_F/||T||_F, |prod p - P| <= 4 eta (sqrt(P)+P) + 4 eta^2; every recorded p: finite, "
-              ">= 0, |sum-1| <= K eps; goodness of fit: max_i |count_i/m - P_i| <= sqrt(ln(2N/1e-12)/(2m)) + bias bound")
+              ">= 0, |sum-1| <= K eps; sample, modes after the first: |prod_{k>=1} p_k - T[i]/M0[i_0]| <= 4 d K eps rho T[i]/M0[i_0] (the noise term "
+              "only enters the first-mode marginal); long chains: `sample` |p_k - c_k| <= 4 K eps c_k elementwise (mode 0 with unsert u: + n_0 u/(S + n_0 u)), "
+              "`sample_square` rank 1: the same, rank 2: |p_k - c_k| <= 16 sqrt(n_k) eta'/sqrt(prefix marginal) + 4 K eps with eta' = K eps sum_k "
+              "||L_k||_2 ||G_k||_F ||R_{k+1}||_2 / ||T||_F (normwise backward error of the orthogonalisation sweep), asserted while that is <= 1e-2; "
+              "goodness of fit: max_i |count_i/m - P_i| <= sqrt(ln(2N/1e-12)/(2m)) + bias bound")
 ASSUMPTIONS = ["d >= 2 (library-wide precondition)",
                "forced/recorded audits assume the request protocol 'modes left to right; within a mode either one vector request of "
                "size m or scalar requests in sample order'; any other protocol is labelled protocol_unknown and skipped, never failed",
@@ -77,6 +91,15 @@ ASSUMPTIONS = ["d >= 2 (library-wide precondition)",
                "(a) `sample` with d >= 3 and BOTH cores 0 and 1 stored as bool (the prefix product is a bool einsum = logical or-of-ands, "
                "not a count: reported as a finding), (b) `sample_square` with a float32 or bool core: scipy.linalg.rq factorises those in "
                "single precision, so the chain is audited with the float32 unit roundoff and the rows are not compared with the float64 copy",
+               "sample with unsert > 0: the noise is an ABSOLUTE amount added to the un-normalised first-mode marginal (docstring: 'noise "
+               "parameter'; code: p += unsert before the first draw only).  For a tensor of small total mass S it legitimately dominates the "
+               "first draw (bound n_0 unsert / S, vacuous for S <= 1e-10); what is asserted independently of it is the distribution of the "
+               "modes 1..d-1 given the first index, which the unmodified library computes without any noise",
+               "long_chains: cores are non-negative (sample) or non-negative up to one sign per mode slice (sample_square), so that the "
+               "reference marginals are sums of non-negative terms (relative accuracy K eps); un-normalised prefix marginals stay above 1e-260 even in the thorough tier (d 64, least likely path of a peaked squared chain): no underflow; "
+               "sample_square conditionals of rank-2 chains are asserted only while the normwise error bound resolves them (labelled otherwise)",
+               "scale equivariance of rows (sample, unsert=0) is asserted for power-of-two factors only: they commute with every rounding "
+               "as long as nothing under/overflows (|x| <= 100 on top of entries in 1e-80 .. 1e80)",
                "history: the caller's updates keep the tensor inside the domain by construction for `sample` (the positive path of the "
                "cores is never zeroed; signed-core tensors only get whole-slice updates); for `sample_square` a history ends (labelled) "
                "when an update makes the tensor exactly zero or ill-conditioned (eta > 1e-7)"]
@@ -415,6 +438,16 @@ def forced_sample_run(ctx, Y, n, ref, unsert):
         tol = 4 * d * K * EPS * rho * p_ref + bias
         ctx.check(abs(prod - p_ref) <= tol, "sample: the chain of conditionals does not multiply to T[i]/sum(T)",
                   target=idx, chain=prod, ref=p_ref, tol=tol, unsert=u, conditionals=[float(q[i]) for q, i in aud.rec])
+        # The noise term enters the marginal of the FIRST mode only (bias above, relative to the total mass S: for a tensor of
+        # small overall scale it legitimately dominates the first draw).  The conditionals of the modes 1..d-1 given the first
+        # index do not see it and do not depend on the overall scale: they multiply to T[i] / M0[i_0] - whatever unsert is.
+        m0 = float(ref["M0"][idx[0]])
+        if m0 > 0 and len(aud.rec) >= 2:
+            tail = 0.0 if status == "stop" else float(np.prod([float(q[i]) for q, i in aud.rec[1:]]))
+            t_ref = float(F[idx]) / m0
+            ctx.check(abs(tail - t_ref) <= 4 * d * K * EPS * rho * t_ref, "sample: the conditionals of the modes after the first do not "
+                      "multiply to T[i]/M0[i_0] (the distribution of the later modes given the first index)", target=idx, chain=tail,
+                      ref=t_ref, unsert=u, first_marginal=m0, total=S, conditionals=[float(q[i]) for q, i in aud.rec])
     return done
 
 
@@ -595,8 +628,39 @@ def chain_cases(draw, tier):
         Y = draw(nn_specs(tier))
     else:
         Y, scale = draw(sq_scaled(tier))
-    return {"which": which, "Y": Y, "scale": scale, "m": draw(st.integers(1, 12 if tier == "quick" else 40)),
+    case = {"which": which, "Y": Y, "scale": scale, "m": draw(st.integers(1, 12 if tier == "quick" else 40)),
             "gen": draw(st.sampled_from(SEED_KINDS[2:])), "seed": draw(gen.seeds), "default_unsert": draw(st.booleans())}
+    if which == "sample":
+        case["overall"] = draw(overall_scales(len(Y["n"])))
+    return case
+
+
+OVERALL_E = (20, 33, 40, 66, 100)                   # 2**20 ~ 1e6 ... 2**100 ~ 1e30
+
+
+@st.composite
+def overall_scales(draw, d, none_weight=1):
+    """An overall factor 2**+-x (1e+-6 .. 1e+-30) on the tensor handed to `sample`, put on one core or spread over all of them.
+    The distribution is scale-free; power-of-two factors commute with every rounding, so even the rows must not change."""
+    if draw(st.sampled_from([True] * none_weight + [False] * 3)):
+        return None
+    x = draw(st.sampled_from(OVERALL_E)) * draw(st.sampled_from([-1, -1, 1]))
+    where = draw(st.sampled_from(["one", "spread"]))
+    exp = [0] * d
+    if where == "one":
+        exp[draw(st.integers(0, d - 1))] = x
+    else:
+        for j in range(abs(x)):
+            exp[j % d] += 1 if x > 0 else -1
+    return {"x": x, "where": where, "exp": exp}
+
+
+def apply_overall(ctx, Y, ov):
+    if ov is None:
+        ctx.label("overall:none")
+        return Y
+    ctx.label("overall:" + ("down" if ov["x"] < 0 else "up"), f"overall_e:{abs(ov['x'])}", "overall_where:" + ov["where"])
+    return [G * 2.0 ** x for G, x in zip(Y, ov["exp"])]
 
 
 def attribute(calls, m, d):
@@ -625,7 +689,16 @@ def attribute(calls, m, d):
     return chain
 
 
-def audit_recorded(ctx, name, I, g, m, n, P, tolP, K):
+def nn_tail(ref, d, K):
+    """(T[i]/M0[i_0], tolerance): the probability of the modes 1..d-1 given the first index - the part of the chain of `sample` that
+    neither the noise term nor the overall scale of the tensor touches; NaN where the first-mode marginal is zero."""
+    M0 = ref["M0"].reshape((-1,) + (1,) * (d - 1))
+    with np.errstate(all="ignore"):
+        Pt = np.where(M0 > 0, ref["F"] / np.where(M0 > 0, M0, 1.0), np.nan)
+    return Pt, 4 * d * K * EPS * ref["rho"] * Pt
+
+
+def audit_recorded(ctx, name, I, g, m, n, P, tolP, K, tail=None):
     """The requests recorded by `g` during the call that returned I: every p is a probability vector and, when the requests
     can be attributed to the rows, the conditionals of every row multiply to its probability.  False = protocol unknown."""
     d = len(n)
@@ -652,6 +725,10 @@ def audit_recorded(ctx, name, I, g, m, n, P, tolP, K):
         p_ref, tol = float(P[row]), float(tolP[row])
         ctx.check(abs(prod - p_ref) <= tol, f"{name}(m={m}): the conditionals used for sample {s} do not multiply to its probability",
                   row=row, chain=prod, ref=p_ref, tol=tol)
+        if tail is not None and d >= 2 and np.isfinite(tail[0][row]):
+            rest = float(np.prod([(1.0 / nk) if p is None else float(p[v]) for nk, p, v in chain[s][1:]]))
+            ctx.check(abs(rest - float(tail[0][row])) <= float(tail[1][row]), f"{name}(m={m}): the conditionals used for the modes after "
+                      f"the first of sample {s} do not multiply to T[i]/M0[i_0]", row=row, chain=rest, ref=float(tail[0][row]))
     return True
 
 
@@ -661,8 +738,10 @@ def prop_chains(case, ctx):
     d = len(n)
     g = Recorder(make_seed(case["gen"], case["seed"]))
     ctx.label("which:" + case["which"], "gen:" + case["gen"])
+    tail = None
     if case["which"] == "sample":
-        Y = build_nn(spec)
+        Yb = build_nn(spec)
+        Y = apply_overall(ctx, Yb, case.get("overall"))          # the tensor handed to the library; the reference is ITS dense form
         ref = nn_reference(Y)
         ctx.label(*nn_labels(spec, ref))
         if ref is None or ref["rho"] > 1e4:
@@ -672,11 +751,23 @@ def prop_chains(case, ctx):
         kw = {} if use_default else {"unsert": 0.0}
         u = 1e-10 if use_default else 0.0
         ctx.label("unsert:default" if use_default else "unsert:0")
-        I = ctx.lib(teneva.sample, Y, m, g, **kw)
+        with np.errstate(all="ignore"):
+            I = ctx.lib(teneva.sample, Y, m, g, **kw)
         K = Kc(Y)
         P = ref["P"]
         tolP = 4 * d * K * EPS * ref["rho"] * P + n[0] * u / ref["S"] * (1 + 1e-9)
+        tail = nn_tail(ref, d, K)
         name = "sample"
+        if ref["S"] * 1e-2 < 1e-10:
+            ctx.label("total_mass<100*default_unsert")
+        if case.get("overall") is not None:
+            # scale-free: without the (absolute) noise term the SAME generator state gives the SAME rows for the tensor times 2**x
+            with np.errstate(all="ignore"):
+                I1 = ctx.lib(teneva.sample, Y, m, make_seed(case["gen"], case["seed"]), unsert=0.0)
+                I0 = ctx.lib(teneva.sample, Yb, m, make_seed(case["gen"], case["seed"]), unsert=0.0)
+            ctx.check(np.array_equal(I0, I1), "sample(unsert=0): the tensor times a power of two gives other rows than the tensor itself "
+                      "(same generator state; the distribution does not depend on the overall scale)", exponent=case["overall"]["x"],
+                      where=case["overall"]["where"], rows=I0[:6], rows_scaled=I1[:6])
     else:
         Y, ref = sq_prepare(ctx, spec, case.get("scale"))
         if ref is None:
@@ -685,10 +776,278 @@ def prop_chains(case, ctx):
         K = Kc(Y)
         P, tolP = ref["P"], ref["tol"]
         name = "sample_square"
-    if not audit_recorded(ctx, name, I, g, m, n, P, tolP, K):
+    if not audit_recorded(ctx, name, I, g, m, n, P, tolP, K, tail=tail):
         return
     ctx.inner(m - 1)
     ctx.nontrivial(nontrivial_tt(spec) and m >= 2)
+
+
+# =========================================================================================== long chains: tiny prefix marginals
+#
+# A probability tensor with many modes has total mass 1 (or O(1)) although EVERY prefix of more than a few modes carries a tiny
+# marginal (n = 4: about 4**-k after k modes).  The conditional of mode k is a ratio of two such numbers, so it is scale-free; the
+# samplers must use it however small both numbers are in absolute terms.  The dense reference is out of reach (4**40 entries), but
+# for NON-NEGATIVE cores the marginals of a prefix are sums of non-negative products of the cores, which plain double arithmetic
+# gives to high relative accuracy: the reference below is exact up to K eps per conditional.
+
+LONG_FAMS = ("mixture", "mixture", "dense", "dense", "peaked", "product")
+LONG_UNSERTS = (None, None, None, 1e-10, 1e-6, 1e-14)
+LONG_RESOLUTION = 1e-2
+
+
+@st.composite
+def long_cases(draw, tier):
+    which = draw(st.sampled_from(["sample", "sample", "sample", "square"]))
+    d = draw(st.integers(12, 40 if tier == "quick" else 64))
+    n0 = draw(st.integers(2, 4))
+    n = [n0] * d if draw(st.booleans()) else [draw(st.integers(2, 4)) for _ in range(d)]
+    fam = draw(st.sampled_from(LONG_FAMS + (("product", "product") if which == "square" else ())))
+    if fam == "product":
+        r = [1] * (d + 1)
+    elif fam == "mixture" or draw(st.booleans()):
+        r = [1] + [2] * (d - 1) + [1]
+    else:
+        r = [1] + [draw(st.sampled_from([1, 2, 2])) for _ in range(d - 1)] + [1]
+    case = {"which": which, "n": n, "r": r, "fam": fam, "seed": draw(gen.seeds), "zfrac": draw(st.sampled_from([0.0, 0.0, 0.0, 0.15])),
+            "peak": draw(st.sampled_from([1, 1, 2])), "mass": draw(st.sampled_from([1.0, 1.0, 1.0, 0.5, 3.0, 7.25, 1e-3, 1e3])),
+            "targets": draw(st.lists(st.sampled_from(["typical", "typical", "uniform", "likely", "unlikely"]), min_size=2, max_size=4)),
+            "tseed": draw(gen.seeds), "unsert": draw(st.sampled_from(LONG_UNSERTS)), "m": draw(st.integers(1, 5)),
+            "kind": draw(st.sampled_from(SEED_KINDS[2:])), "cseed": draw(gen.seeds), "default_unsert": draw(st.booleans())}
+    if which == "sample":
+        case["overall"] = draw(overall_scales(d, none_weight=3))
+    return case
+
+
+def build_long(case):
+    """Non-negative cores of ranks 1..2 whose right marginal vectors (`sample`) / right Gram matrices (`sample_square`) are
+    normalised to maximum 1 in every position, so that the total mass (squared norm) is exactly `mass` (mass**2) up to rounding
+    while a prefix of k modes keeps about prod 1/n_j of it.  For `sample_square` every mode slice then gets a random sign: the
+    squared distribution is that of the non-negative tensor, the cores the library factorises are signed."""
+    n, r, fam = case["n"], case["r"], case["fam"]
+    d = len(n)
+    rng = np.random.default_rng(case["seed"])
+    Y = []
+    for k in range(d):
+        sh = (r[k], n[k], r[k + 1])
+        if fam == "mixture":
+            G = np.zeros(sh)
+            for j in range(2):
+                G[min(j, sh[0] - 1), :, min(j, sh[2] - 1)] = rng.uniform(0.1, 1.0, n[k]) * (0.7 if (k == 0 and j == 0) else 1.0)
+        else:
+            G = rng.uniform(0.05, 1.0, size=sh)
+            if fam == "peaked":
+                G *= (2.0 ** (-case["peak"] * np.arange(n[k])))[None, :, None]
+            if case["zfrac"] > 0:
+                G *= rng.uniform(size=sh) >= case["zfrac"]
+                if not G[0, 0, 0] > 0:
+                    G[0, 0, 0] = 0.5                    # a strictly positive path: the tensor is not zero
+        Y.append(G)
+    if case["which"] == "sample":
+        phi = np.ones(1)
+        for k in range(d - 1, -1, -1):
+            phi = Y[k].sum(axis=1) @ phi
+            s = float(phi.max())
+            Y[k] /= s
+            phi = phi / s
+    else:
+        R = np.ones((1, 1))
+        for k in range(d - 1, -1, -1):
+            R = np.einsum('aib,bc,eic->ae', Y[k], R, Y[k])
+            s = float(np.diag(R).max())
+            Y[k] /= math.sqrt(s)
+            R = R / s
+        for k in range(d):
+            Y[k] *= rng.choice([-1.0, 1.0], size=n[k])[None, :, None]
+    Y[0] *= case["mass"]
+    return Y
+
+
+class LongRef:
+    """Marginals of prefixes of a TT-tensor with non-negative cores (`sample`) resp. of the square of a tensor whose cores are
+    non-negative up to a sign per mode slice (`sample_square`), computed from the cores in non-negative arithmetic."""
+
+    def __init__(self, Y, square):
+        self.A = [np.abs(G) for G in Y]
+        self.square = square
+        d = self.d = len(Y)
+        self.right = [None] * (d + 1)
+        self.right[d] = np.ones((1, 1)) if square else np.ones(1)
+        for k in range(d - 1, -1, -1):
+            if square:
+                self.right[k] = np.einsum('aib,bc,eic->ae', self.A[k], self.right[k + 1], self.A[k])
+            else:
+                self.right[k] = self.A[k].sum(axis=1) @ self.right[k + 1]
+        self.total = float(np.ravel(self.right[0])[0])          # sum(T) resp. ||T||_F^2
+        self.K = Kc(Y)
+        self.eta = None
+        self.rank1 = all(G.shape[0] == 1 and G.shape[2] == 1 for G in Y)
+        if square:
+            # normwise backward error of the orthogonalisation sweep: step k perturbs G_k R_{k+1} by c eps of its norm, the left
+            # cores carry that into the tensor with the 2-norm of their unfolding (Gram matrices, all non-negative sums)
+            L = np.ones((1, 1))
+            kap = 0.0
+            for k in range(d):
+                kap += math.sqrt(float(np.linalg.eigvalsh(L)[-1])) * float(np.linalg.norm(self.A[k].ravel())) \
+                       * math.sqrt(float(np.linalg.eigvalsh(self.right[k + 1])[-1]))
+                L = np.einsum('aib,ae,eic->bc', self.A[k], L, self.A[k])
+            self.eta = self.K * EPS * kap / math.sqrt(self.total)
+
+    def step(self, v, k):
+        """(unnormalised marginals of prefix + (i,) for every i, partial products prefix + (i,))"""
+        w = np.einsum('a,aib->ib', v, self.A[k])
+        if self.square:
+            return np.einsum('ib,bc,ic->i', w, self.right[k + 1], w), w
+        return w @ self.right[k + 1], w
+
+    def conditionals(self, row):
+        """[(conditional distribution of mode k given row[:k] or None for a zero-mass prefix, marginal of row[:k] / total)]"""
+        v, out = np.ones(1), []
+        for k in range(self.d):
+            marg, w = self.step(v, k)
+            tot = float(marg.sum())
+            out.append((marg / tot if tot > 0 else None, tot / self.total))
+            v = w[int(row[k])]
+        return out
+
+    def draw_row(self, kind, rng):
+        """A target row: drawn from the distribution itself, uniform, or greedily the most / least likely continuation."""
+        v, row = np.ones(1), []
+        for k in range(self.d):
+            marg, w = self.step(v, k)
+            tot = float(marg.sum())
+            if kind == "uniform" or not tot > 0:
+                i = int(rng.integers(0, len(marg)))
+            elif kind == "typical":
+                i = int(rng.choice(len(marg), p=marg / tot))
+            elif kind == "likely":
+                i = int(np.argmax(marg))
+            else:
+                pos = np.where(marg > 0)[0]
+                i = int(pos[np.argmin(marg[pos])])
+            row.append(i)
+            v = w[i]
+        return row
+
+
+def long_mode_check(ctx, name, lref, k, q, cond, n, u, row, worst):
+    """One probability vector handed to the generator for mode k against the conditional distribution of the tensor given the
+    prefix row[:k].  Returns False when a squared conditional is beyond what the normwise-stable factorisation resolves."""
+    c, pm = cond
+    if c is None:
+        return False
+    if lref.square and lref.rank1:
+        # all ranks 1: the partial product is a scalar that cancels in the conditional g_i^2 / sum_j g_j^2 of the normalised core
+        tolv = 4 * lref.K * EPS * c
+    elif lref.square:
+        # sqrt-marginals are accurate to 3 eta absolutely (backward error of the factorisation, normalisation, sampling sweep),
+        # the conditional is the squared ratio of two of them: |dq| <= 4 * 3 sqrt(n_k) eta / sqrt(prefix marginal) + higher order
+        tol = 16 * math.sqrt(n[k]) * lref.eta / math.sqrt(pm) + 4 * lref.K * EPS
+        if tol > LONG_RESOLUTION:
+            ctx.label("square_prefix_beyond_resolution")
+            return False
+        tolv = np.full(len(c), tol)
+    else:
+        tolv = 4 * lref.K * EPS * c
+        if k == 0 and u > 0:
+            # the noise term: (M0 + u) / (S + n_0 u) is within (n_0 - 1) u / (S + n_0 u) of M0 / S
+            tolv = tolv + n[0] * u / (lref.total + n[0] * u) * (1 + 1e-9)
+    err = np.abs(q - c)
+    ctx.check(bool(np.all(err <= tolv)), f"{name}: the probability vector used for a mode is not the conditional distribution of the "
+              "tensor given the indices drawn so far", mode=k, prefix=row[:k], prefix_marginal=pm, used=q, conditional=c, tol=tolv,
+              total=lref.total, unsert=u)
+    worst[0] = min(worst[0], pm * (1.0 if lref.square else lref.total))
+    return True
+
+
+def long_forced(ctx, name, fn, Y, n, lref, row, kw, u, worst):
+    aud = Forcer(row, n)
+    status, out = ctx.lib(_guard(fn), Y, 1, seed=aud, **kw)
+    if status == "unknown" or (status == "ok" and len(aud.rec) != len(n)):
+        ctx.label("protocol_unknown")
+        return False
+    conds = lref.conditionals(row)
+    if status == "ok":
+        check_index_array(ctx, out, 1, n, name + "(m=1)")
+        ctx.check(out[0].tolist() == list(row), f"{name}: the returned multi-index is not the one the generator picked", got=out[0], picked=row)
+    else:
+        ctx.label("zero_conditional_reached")
+    for k, (q, i) in enumerate(aud.rec):
+        check_pvec(ctx, q, lref.K, name, mode=k)
+        if not long_mode_check(ctx, name, lref, k, q, conds[k], n, u, row, worst):
+            break
+    return True
+
+
+def long_recorded(ctx, name, I, g, m, n, lref, u, worst):
+    d = len(n)
+    check_index_array(ctx, I, m, n, name)
+    chain = attribute(g.calls, m, d)
+    if chain is None or any(chain[s][k][0] != n[k] or chain[s][k][2] != int(I[s, k]) or chain[s][k][1] is None
+                            for s in range(m) for k in range(d)):
+        ctx.label("protocol_unknown")
+        return False
+    for s in range(m):
+        row = [int(v) for v in I[s]]
+        conds = lref.conditionals(row)
+        for k in range(d):
+            check_pvec(ctx, chain[s][k][1], lref.K, name, mode=k)
+            if not long_mode_check(ctx, f"{name}(m={m})", lref, k, chain[s][k][1], conds[k], n, u, row, worst):
+                break
+    return True
+
+
+def prop_long_chains(case, ctx):
+    n, d, square = case["n"], len(case["n"]), case["which"] == "square"
+    Y = build_long(case)
+    lref = LongRef(Y, square)
+    ctx.label("which:" + case["which"], "fam:" + case["fam"], "d<20" if d < 20 else "d<30" if d < 30 else "d>=30", f"mass:{case['mass']}",
+              "rank>=2" if max(case["r"]) >= 2 else "rank1")
+    worst = [1.0]                                   # smallest prefix marginal (absolute for `sample`) whose conditional was audited
+    rng = np.random.default_rng(case["tseed"])
+    rows = [lref.draw_row(kind, rng) for kind in case["targets"]]
+    ctx.label(*("target:" + t for t in case["targets"]))
+    done = 0
+    with np.errstate(all="ignore"):
+        if square:
+            for row in rows:
+                done += bool(long_forced(ctx, "sample_square", teneva.sample_square, Y, n, lref, row, {"unique": False}, 0.0, worst))
+            g = Recorder(make_seed(case["kind"], case["cseed"]))
+            I = ctx.lib(teneva.sample_square, Y, case["m"], False, g)
+            long_recorded(ctx, "sample_square", I, g, case["m"], n, lref, 0.0, worst)
+        else:
+            M0 = lref.step(np.ones(1), 0)[0]
+            for unsert in (0.0, case["unsert"]):
+                kw = {} if unsert is None else {"unsert": unsert}
+                u = 1e-10 if unsert is None else float(unsert)
+                for row in rows:
+                    if u > 0 and not M0[row[0]] > 0:
+                        ctx.label("unsert_zero_first_marginal_skipped")
+                        continue
+                    done += bool(long_forced(ctx, "sample", teneva.sample, Y, n, lref, row, kw, u, worst))
+            ctx.label("unsert:" + ("default" if case["unsert"] is None else repr(case["unsert"])))
+            # an ordinary call with a real generator; then the same generator state on the tensor times 2**x
+            use_default = case["default_unsert"] and bool(np.all(M0 > 0))
+            kw = {} if use_default else {"unsert": 0.0}
+            g = Recorder(make_seed(case["kind"], case["cseed"]))
+            I = ctx.lib(teneva.sample, Y, case["m"], g, **kw)
+            long_recorded(ctx, "sample", I, g, case["m"], n, lref, 1e-10 if use_default else 0.0, worst)
+            ov = case.get("overall")
+            if ov is not None:
+                Ys = apply_overall(ctx, Y, ov)
+                I0 = ctx.lib(teneva.sample, Y, case["m"], make_seed(case["kind"], case["cseed"]), unsert=0.0)
+                I1 = ctx.lib(teneva.sample, Ys, case["m"], make_seed(case["kind"], case["cseed"]), unsert=0.0)
+                ctx.check(np.array_equal(I0, I1), "sample(unsert=0): the tensor times a power of two gives other rows than the tensor itself "
+                          "(same generator state; the distribution does not depend on the overall scale)", exponent=ov["x"], where=ov["where"],
+                          rows=I0[:4], rows_scaled=I1[:4])
+                sref = LongRef(Ys, False)
+                g = Recorder(make_seed(case["kind"], case["cseed"]))
+                I = ctx.lib(teneva.sample, Ys, case["m"], g, **kw)
+                long_recorded(ctx, "sample", I, g, case["m"], n, sref, 1e-10 if use_default else 0.0, worst)
+    for t in (1e-10, 1e-12, 1e-20, 1e-30):
+        if worst[0] <= t:
+            ctx.label(f"audited_prefix_marginal<={t:g}")
+    ctx.inner(max(0, done - 1))
+    ctx.nontrivial(done > 0 and worst[0] <= 1e-12)
 
 
 # =========================================================================================== histories: the tensor as it is NOW
@@ -780,7 +1139,7 @@ def history_real_call(ctx, case, which, Ycall, n, ref, mkseed):
                       row=I[int(np.argmin(vals))], value=float(vals.min()))
         if rec is not None:
             tolP = 4 * d * K * EPS * ref["rho"] * ref["P"] + n[0] * u / ref["S"] * (1 + 1e-9)
-            audit_recorded(ctx, "sample", I, rec, m, n, ref["P"], tolP, K)
+            audit_recorded(ctx, "sample", I, rec, m, n, ref["P"], tolP, K, tail=nn_tail(ref, d, K))
         return
     P, tol = ref["P"], ref["tol"]
     sharp = ref["eta"] <= 1e-10
@@ -1373,6 +1732,7 @@ SUBCHECKS = [
     Sub("sample_forced", prop_sample_forced, strategy=sample_forced_cases, quick=200, thorough=2000),
     Sub("square_forced", prop_square_forced, strategy=square_forced_cases, quick=200, thorough=2000),
     Sub("chains", prop_chains, strategy=chain_cases, quick=250, thorough=3000),
+    Sub("long_chains", prop_long_chains, strategy=long_cases, quick=50, thorough=600),
     Sub("history", prop_history, strategy=history_cases, quick=70, thorough=800),
     Sub("structure_tt", prop_structure_tt, strategy=structure_tt_cases, quick=150, thorough=2000),
     Sub("unique_args", prop_unique_args, strategy=unique_cases, quick=120, thorough=1500),
